@@ -44,6 +44,53 @@ func vhC13Kids(b []byte, e vhC13Entry) ([]int, bool) {
 	}
 }
 
+// vhC13Nums reads "[n n n ...]" (decimal numbers) at e.start.
+func vhC13Nums(b []byte, e vhC13Entry) ([]float64, bool) {
+	i := e.start
+	if i >= len(b) || b[i] != '[' {
+		return nil, false
+	}
+	i++
+	var out []float64
+	for {
+		for i < len(b) && vhC13WS(b[i]) {
+			i++
+		}
+		if i >= len(b) {
+			return nil, false
+		}
+		if b[i] == ']' {
+			return out, true
+		}
+		neg := false
+		if b[i] == '-' {
+			neg = true
+			i++
+		}
+		v, scale, digits, frac := 0.0, 1.0, 0, false
+		for i < len(b) && ((b[i] >= '0' && b[i] <= '9') || (b[i] == '.' && !frac)) {
+			if b[i] == '.' {
+				frac = true
+			} else {
+				v = v*10 + float64(b[i]-'0')
+				if frac {
+					scale *= 10
+				}
+				digits++
+			}
+			i++
+		}
+		if digits == 0 {
+			return nil, false
+		}
+		v /= scale
+		if neg {
+			v = -v
+		}
+		out = append(out, v)
+	}
+}
+
 // vhC13StreamOf returns the bytes of the stream object n (no filter).
 func vhC13StreamOf(b []byte, d vhC13Doc, n int) ([]byte, bool) {
 	if n <= 0 || n >= len(d.offsets) {
@@ -175,8 +222,8 @@ func VH_C13_pagetree() {
 	if !okK {
 		return
 	}
-	pagesOK, namesOK := true, true
-	for _, kid := range kids {
+	pagesOK, namesOK, sizeOK := true, true, true
+	for pgIdx, kid := range kids {
 		if kid <= 0 || kid >= len(d.offsets) {
 			pagesOK = false
 			continue
@@ -187,6 +234,18 @@ func VH_C13_pagetree() {
 		con, _ := vhC13Find(pg, "Contents")
 		re, hasR := vhC13Find(pg, "Resources")
 		pagesOK = pagesOK && okG && t2.kind == 'n' && t2.name == "Page" && par.kind == 'r' && par.num == pe.num && con.kind == 'r' && hasR
+		// the page size in points (1 mm = 72/25.4 pt)
+		mb, hasMB := vhC13Find(pg, "MediaBox")
+		wmm, hmm := 100.0, 100.0
+		if pgIdx > 0 {
+			wmm, hmm = 50+10*float64(pgIdx), 60
+		}
+		if box, okB := vhC13Nums(b, mb); hasMB && okB && len(box) == 4 {
+			nr := func(a, c float64) bool { return a-c <= 1e-5 && c-a <= 1e-5 }
+			sizeOK = sizeOK && nr(box[0], 0) && nr(box[1], 0) && nr(box[2], wmm*72/25.4) && nr(box[3], hmm*72/25.4)
+		} else {
+			sizeOK = false
+		}
 		if !(okG && con.kind == 'r' && hasR) {
 			continue
 		}
@@ -199,4 +258,5 @@ func VH_C13_pagetree() {
 	}
 	vAssert("C13.pagetree.kids_are_pages_of_this_node", pagesOK)
 	vAssert("C13.pagetree.resource_names_defined_in_page_resources", namesOK)
+	vAssert("C13.pagetree.mediabox_is_page_size_in_points", sizeOK)
 }
